@@ -32,6 +32,14 @@ PROPS["C04"] = dict(units=["ark_ops", "ark_encoding"], assumptions=[A_ARK2, M_GR
 PROPS["C05"] = dict(units=["ark_ops"], assumptions=[A_ARK2, M_GROUP, A_WF, A_STD],
     explanation="each Mul/MulAssign form ensures to_affine(result) == to_affine(ark_mul(k, view(point))) where ark_mul is arkworks' scalar multiplication (assumed projectively equal to the k-fold sum)")
 
+PROPS["C04"]["units"] = ["ark_ops", "ark_encoding", "ark_element"]
+PROPS["C05"]["units"] = ["ark_ops", "ark_element"]
+PROPS["C06"] = dict(units=["ark_element", "ark_encoding", "ark_ops"], assumptions=[A_ARK2, M_GROUP, M_DECAF, A_WF, A_STD],
+    explanation="each public constructor ensures valid(repr) (on the curve and in 2E) or equality with a value proved valid; from_random_bytes doubles the sampled curve point",
+    not_decided=["termination of the rejection samplers in rand.rs (probabilistic)", "normalize_batch / batch_convert_to_mul_base (iterator plumbing over arkworks batch routines, A-ARK-2)"])
+PROPS["C08"] = dict(units=["ark_element"], assumptions=[A_ARK2, M_DECAF, A_WF, A_STD, M_LE32],
+    explanation="eq == spec_eq(repr, repr); Hash writes a function of spec_encode(repr) only; is_identity / Zero::is_zero / AffineRepr::is_zero == (x == 0)")
+
 NOT_APPLICABLE = {
     "C15": "circuit shape / pinned Groth16 keys: the subject is the hidden ark_relations constraint store and binary key files; no pre/postcondition on a /repo function can state matrix equality across runs or SNARK verification (DESIGN.md C15)",
 }
